@@ -209,3 +209,20 @@ Section Cache.
   Definition finditer_c (p : jpath) (d ctx : json) : result (list jmatch) :=
     resolve_segs_c (p_segs p) d ctx [root_match (if p_fake p then JArr [d] else d)].
 End Cache.
+
+(* the positions of the expression tree that cache_tree() wraps in a CachingFilterExpression
+   (used by the correspondence to tie the caching decisions to the code) *)
+Fixpoint cache_positions (e : fexpr) (pos : position) : list position :=
+  (if cacheable e then [pos] else []) ++
+  match e with
+  | FList items => cache_positions_list items pos 0
+  | FNot r => cache_positions r (pos ++ [0])
+  | FInfix l _ r => cache_positions l (pos ++ [0]) ++ cache_positions r (pos ++ [1])
+  | FFunc _ args => cache_positions_list args pos 0
+  | _ => []
+  end
+with cache_positions_list (es : fexprs) (pos : position) (i : nat) : list position :=
+  match es with
+  | ENil => []
+  | ECons e r => cache_positions e (pos ++ [i]) ++ cache_positions_list r pos (S i)
+  end.
